@@ -212,7 +212,12 @@ def p_literals(b):
     b.prog.features.add("literals")
     for _ in range(b.draw(st.integers(1, 3))):
         e, d, _x = b.scalar()
-        b.bind(e, d, _x)
+        v = b.bind(e, d, _x)
+        # attribute / method access on a builtin value (e.g. on a variable holding a number literal)
+        if d[0] in ("int", "float", "bool") and b.draw(st.booleans()):
+            b.bind("%s.real" % v.name, ("float",) if d[0] == "float" else ("int",), _x, ["builtin-attribute"])
+        elif d[0] == "str" and b.draw(st.booleans()):
+            b.bind("%s.upper()" % v.name, ("str",), _x, ["builtin-method"])
     e1, d1, x1 = b.value()
     e2, d2, x2 = b.value()
     kind = b.draw(st.sampled_from(["list", "tuple", "dict", "set", "nested"]))
@@ -221,7 +226,7 @@ def p_literals(b):
         b.bind("%s[0]" % v.name, d1, x1, ["index"])
         b.bind("%s[-1]" % v.name, d1, x1, ["index"])
     elif kind == "tuple":
-        v = b.bind("(%s, %s)" % (e1, e2), ("tuple", (d1, d2)), x1 and x2)
+        v = b.bind(("(%s, %s)" if b.draw(st.booleans()) else "%s, %s") % (e1, e2), ("tuple", (d1, d2)), x1 and x2)
         b.bind("%s[0]" % v.name, d1, x1, ["index"])
         b.bind("%s[1]" % v.name, d2, x2, ["index"])
     elif kind == "dict":
